@@ -887,3 +887,58 @@ Proof.
   destruct (hdr_verify_accept _ _ _ P2 Ve) as (-> & Lpl & Cr).
   exists (fd_hdr f). split; [exact Uh|]. split; [exact Cr|exact Lpl].
 Qed.
+
+(* ================= C11: lengths track the setters ================= *)
+
+Inductive fin_op :=
+| FSetFault (o : option tlv)
+| FSetResps (o : option (list fsresp))
+| FSetCc (cc : Z).
+Definition fin_apply_op (p : FinishedPdu) (o : fin_op) : res FinishedPdu :=
+  match o with
+  | FSetFault x => fin_set_fault p x
+  | FSetResps x => fin_set_resps p x
+  | FSetCc cc => fin_set_cc p cc
+  end.
+Fixpoint fin_apply_ops (p : FinishedPdu) (ops : list fin_op) : res FinishedPdu :=
+  match ops with [] => Ok p | o :: r => do p' <- fin_apply_op p o; fin_apply_ops p' r end.
+
+(* invariant: the cached data-field length is the one computed from the current parameters *)
+Definition fin_inv (c : PduConfig) (p : FinishedPdu) : Prop := p = fin_pdu_of c (fin_params p).
+
+Lemma fin_apply_op_inv c p o p' : flag (cf_crc c) -> fin_inv c p -> fin_apply_op p o = Ok p' -> fin_inv c p'.
+Proof.
+  intros Fc I. unfold fin_inv in I.
+  assert (X : forall q', fin_calc_len {| fin_fdir := fin_fdir p; fin_params := q' |} = Ok p' -> fin_inv c p').
+  { intros q' H. rewrite I in H. unfold fin_pdu_of at 1 in H. cbn [fin_fdir] in H.
+    rewrite fin_calc_len_spec in H by exact Fc. destruct (fin_dlen c q' <=? 65535); [|discriminate H].
+    injection H as <-. reflexivity. }
+  destruct o as [x|x|cc]; unfold fin_apply_op, fin_set_fault, fin_set_resps, fin_set_cc; apply X.
+Qed.
+
+Theorem fin_setters_inv c q ops p : fin_valid c q ->
+  fin_apply_ops (fin_pdu_of c q) ops = Ok p -> p = fin_pdu_of c (fin_params p).
+Proof.
+  intros V. assert (Fc : flag (cf_crc c)) by apply V.
+  assert (I0 : fin_inv c (fin_pdu_of c q)) by reflexivity.
+  revert I0. generalize (fin_pdu_of c q) as p0. induction ops as [|o r IH]; intros p0 I0 A; cbn [fin_apply_ops] in A.
+  - injection A as <-. exact I0.
+  - destruct (fin_apply_op p0 o) as [p1|e] eqn:E; [|discriminate A]. cbn [bind] in A.
+    apply (IH p1); [|exact A]. apply (fin_apply_op_inv c p0 o p1 Fc I0 E).
+Qed.
+
+(* K_len_inv / K_pack_eq_fresh: after the constructor and any sequence of setter calls the
+   reported length is the length of the packed octets, the packed octets are the layout of the
+   current values, and the object is the one a fresh constructor call would build *)
+Theorem fin_len_inv c q ops p : fin_valid c q ->
+  fin_apply_ops (fin_pdu_of c q) ops = Ok p -> fin_valid c (fin_params p) ->
+  fin_pack p = Ok (fin_layout c (fin_params p)) /\
+  fin_packet_len p = len (fin_layout c (fin_params p)) /\
+  fin_new c (fin_params p) = Ok (p, c, fin_params p).
+Proof.
+  intros V A Vp. pose proof (fin_setters_inv c q ops p V A) as I.
+  remember (fin_params p) as q' eqn:Q.
+  destruct (fin_data_field_len c q' Vp) as (PL & _).
+  rewrite I. split; [apply fin_pack_layout; exact Vp|]. split; [exact PL|].
+  apply fin_new_ok. exact Vp.
+Qed.
